@@ -1,0 +1,316 @@
+//go:build verif
+
+// Contracts for the verification framework in /verif (comment-only file; it is
+// compiled only with -tags verif and contributes no code). Syntax: CONTRACTS.md.
+
+package ha
+
+// ---- store.go: InMemorySessionStore (C13) ----
+//
+// Abstract view: the map sessions (session id -> *SessionState), owned by mu.
+
+//@ type InMemorySessionStore
+//@   owns mu: sessions
+//@   inv nonnil: self.sessions != nil
+
+//@ func NewInMemorySessionStore
+//@   modifies nothing
+//@   ensures result != nil && fresh(result) && result.nonnil && card(result.sessions) == 0
+//@   ensures forall id string :: id !in result.sessions
+
+//@ func (s *InMemorySessionStore) PutSession
+//@   requires session != nil
+//@   modifies s.sessions
+//@   ensures err == nil && s.sessions == locked(s.sessions)
+//@   ensures dom(s.sessions) == locked(dom(s.sessions))[session.SessionID := true]
+//@   ensures vals(s.sessions) == locked(vals(s.sessions))[session.SessionID := session]
+
+//@ func (s *InMemorySessionStore) DeleteSession
+//@   modifies s.sessions
+//@   ensures err == nil && s.sessions == locked(s.sessions)
+//@   ensures dom(s.sessions) == locked(dom(s.sessions))[sessionID := false]
+//@   ensures vals(s.sessions) == locked(vals(s.sessions))
+
+//@ func (s *InMemorySessionStore) GetSession
+//@   modifies nothing
+//@   ensures result1 == locked(sessionID in s.sessions)
+//@   ensures result1 ==> result == locked(s.sessions[sessionID])
+//@   ensures !result1 ==> result == nil
+
+//@ func (s *InMemorySessionStore) GetSessionCount
+//@   modifies nothing
+//@   ensures result == locked(card(s.sessions))
+
+//@ func (s *InMemorySessionStore) GetAllSessions
+//@   modifies nothing
+//@   ensures fresh(result)
+//@   ensures forall j int :: 0 <= j && j < len(result) ==> exists id string :: locked(id in s.sessions) && locked(s.sessions[id]) != nil && result[j] == *locked(s.sessions[id])
+
+//@   ensures forall id string {locked(s.sessions[id])} :: locked(id in s.sessions) ==> (exists j int :: 0 <= j && j < len(result) && result[j] == *locked(s.sessions[id]))
+
+//@ loop InMemorySessionStore.GetAllSessions#1
+//@   invariant fresh(result)
+//@   invariant forall id string {s.sessions[id]} :: id in visited ==> (exists j int :: 0 <= j && j < len(result) && result[j] == *s.sessions[id])
+//@   invariant forall j int :: 0 <= j && j < len(result) ==> exists id string :: locked(id in s.sessions) && locked(s.sessions[id]) != nil && result[j] == *locked(s.sessions[id])
+
+// ---- protocol.go / sync.go: HASyncer (C13) ----
+//
+// The syncer reaches its store through the SessionStore interface. The
+// contracts below are those of InMemorySessionStore (verified above) with the
+// pre-state taken at the call (old) instead of at the lock acquisition
+// (locked): ASSUMPTIONS (a) the dynamic type of HASyncer.store is
+// *InMemorySessionStore (cmd/bng/main.go:763,826), (b) the standby's store has
+// a single writer (the syncer goroutine), so nothing changes between the call
+// and the store's own lock acquisition.
+
+//@ pure func mem(x *InMemorySessionStore) *InMemorySessionStore = x
+
+//@ iface SessionStore.PutSession(session)
+//@   requires session != nil
+//@   modifies mem(self).sessions
+//@   ensures err == nil && mem(self).sessions == old(mem(self).sessions)
+//@   ensures dom(mem(self).sessions) == old(dom(mem(self).sessions))[session.SessionID := true]
+//@   ensures vals(mem(self).sessions) == old(vals(mem(self).sessions))[session.SessionID := session]
+
+//@ iface SessionStore.DeleteSession(sessionID)
+//@   modifies mem(self).sessions
+//@   ensures err == nil && mem(self).sessions == old(mem(self).sessions)
+//@   ensures dom(mem(self).sessions) == old(dom(mem(self).sessions))[sessionID := false]
+//@   ensures vals(mem(self).sessions) == old(vals(mem(self).sessions))
+
+//@ iface SessionStore.GetSessionCount()
+//@   modifies nothing
+//@   ensures result == card(mem(self).sessions)
+
+//@ iface SessionStore.GetAllSessions()
+//@   modifies nothing
+//@   ensures fresh(result)
+//@   ensures forall j int :: 0 <= j && j < len(result) ==> exists id string :: id in mem(self).sessions && mem(self).sessions[id] != nil && result[j] == *mem(self).sessions[id]
+//@   ensures forall id string {mem(self).sessions[id]} {dom(mem(self).sessions)[id]} :: id in mem(self).sessions ==> (exists j int :: 0 <= j && j < len(result) && result[j] == *mem(self).sessions[id])
+
+// receivedMu protects receivedSessions against concurrent READERS; the only
+// writer is the standby's syncer goroutine (standbyLoop runs performFullSync,
+// connectToStream and handleSSEData sequentially). Under assumption (b) an
+// acquisition of receivedMu therefore does not change receivedSessions from the
+// writer's point of view: receivedMu owns no field in the monitor model.
+//@ type HASyncer
+//@   owns mu: connected stats
+//@   owns receivedMu:
+
+//@ func DecodeSyncMessage
+//@   modifies nothing
+//@   ensures err == nil ==> result != nil && fresh(result)
+//@   ensures err != nil ==> result == nil
+
+//@ func (s *HASyncer) peerScheme
+//@   pure
+//@   modifies nothing
+
+// keyed(st): every stored session object carries the id it is stored under (PutSession stores
+// under session.SessionID; ASSUMPTION: nobody changes the SessionID of a stored object).
+//@ pure func keyed(st *InMemorySessionStore) bool = forall id string {st.sessions[id]} :: id in st.sessions ==> st.sessions[id] != nil && allocated(st.sessions[id]) && st.sessions[id].SessionID == id
+//@ pure func inList(l []SessionState, n int, id string) bool = exists j int {l[j]} :: 0 <= j && j < n && l[j].SessionID == id
+
+// applyFullSync: the standby's table is REPLACED by the snapshot: afterwards the store holds
+// exactly the snapshot's ids (and receivedSessions is their image).
+//@ func (s *HASyncer) applyFullSync
+//@   requires s.store != nil && mem(s.store).sessions != nil && keyed(mem(s.store))
+//@   modifies s.receivedSessions, mem(s.store).sessions
+//@   ensures mem(s.store).sessions == old(mem(s.store).sessions) && keyed(mem(s.store))
+//@   ensures s.receivedSessions != nil && s.receivedSessions != mem(s.store).sessions
+//@   ensures forall id string :: id in mem(s.store).sessions <==> inList(sessions, len(sessions), id)
+//@   ensures dom(mem(s.store).sessions) == dom(s.receivedSessions)
+//@   ensures forall id string {s.receivedSessions[id]} :: id in s.receivedSessions ==> mem(s.store).sessions[id] == s.receivedSessions[id]
+//@   ensures forall id string {s.receivedSessions[id]} :: id in s.receivedSessions ==> (exists j int {sessions[j]} :: 0 <= j && j < len(sessions) && sessions[j].SessionID == id && *s.receivedSessions[id] == sessions[j])
+
+//@ loop HASyncer.applyFullSync#1
+//@   invariant s.receivedSessions != nil && fresh(s.receivedSessions) && mem(s.store).sessions == old(mem(s.store).sessions) && s.store == old(s.store)
+//@   invariant forall j int {sessions[j]} :: 0 <= j && j < i ==> sessions[j].SessionID in s.receivedSessions
+//@   invariant forall id string {s.receivedSessions[id]} :: id in s.receivedSessions ==> s.receivedSessions[id] != nil && fresh(s.receivedSessions[id]) && allocated(s.receivedSessions[id]) && s.receivedSessions[id].SessionID == id
+//@   invariant forall id string {s.receivedSessions[id]} :: id in s.receivedSessions ==> (exists j int {sessions[j]} :: 0 <= j && j < i && sessions[j].SessionID == id && *s.receivedSessions[id] == sessions[j])
+//@   invariant forall id string :: id in mem(s.store).sessions <==> (old(id in mem(s.store).sessions) || id in s.receivedSessions)
+//@   invariant forall id string {s.receivedSessions[id]} :: id in s.receivedSessions ==> mem(s.store).sessions[id] == s.receivedSessions[id]
+//@   invariant forall id string {mem(s.store).sessions[id]} :: id !in s.receivedSessions ==> mem(s.store).sessions[id] == old(mem(s.store).sessions[id])
+//@   invariant keyed(mem(s.store))
+//@   invariant forall id string {old(dom(mem(s.store).sessions)[id])} :: old(id in mem(s.store).sessions) ==> id in mem(s.store).sessions
+
+// second loop: stale entries (not in the snapshot) are deleted; `stored` lists every entry of the store
+//@ loop HASyncer.applyFullSync#2
+//@   invariant s.receivedSessions != nil && fresh(s.receivedSessions) && mem(s.store).sessions == old(mem(s.store).sessions) && s.store == old(s.store)
+//@   invariant forall id string :: id in s.receivedSessions <==> inList(sessions, len(sessions), id)
+//@   invariant forall id string {s.receivedSessions[id]} :: id in s.receivedSessions ==> s.receivedSessions[id] != nil && fresh(s.receivedSessions[id]) && s.receivedSessions[id].SessionID == id
+//@   invariant forall id string {s.receivedSessions[id]} :: id in s.receivedSessions ==> (exists j int {sessions[j]} :: 0 <= j && j < len(sessions) && sessions[j].SessionID == id && *s.receivedSessions[id] == sessions[j])
+//@   invariant forall id string {s.receivedSessions[id]} :: id in s.receivedSessions ==> id in mem(s.store).sessions && mem(s.store).sessions[id] == s.receivedSessions[id]
+//@   invariant forall id string {mem(s.store).sessions[id]} :: id in mem(s.store).sessions && id !in s.receivedSessions ==> old(id in mem(s.store).sessions) && mem(s.store).sessions[id] == old(mem(s.store).sessions[id]) && !(exists j int {stored[j]} :: 0 <= j && j < ridx && stored[j].SessionID == id)
+//@   invariant forall id string {old(dom(mem(s.store).sessions)[id])} :: old(id in mem(s.store).sessions) ==> (exists j int {stored[j]} :: 0 <= j && j < len(stored) && stored[j].SessionID == id)
+
+// performFullSync (standby): after a completed full synchronisation the store
+// holds exactly the received snapshot (= the image receivedSessions built by applyFullSync).
+//@ func (s *HASyncer) performFullSync
+//@   requires s.store != nil && s.config.Partner != nil && mem(s.store).sessions != nil && keyed(mem(s.store))
+//@   modifies s.receivedSessions, s.stats, mem(s.store).sessions
+//@   ensures keyed(mem(s.store))
+//@   ensures err == nil ==> s.receivedSessions != nil && s.receivedSessions != mem(s.store).sessions
+//@   ensures mem(s.store).sessions == old(mem(s.store).sessions)
+//@   ensures err != nil ==> dom(mem(s.store).sessions) == old(dom(mem(s.store).sessions)) && vals(mem(s.store).sessions) == old(vals(mem(s.store).sessions))
+//@   ensures err == nil ==> dom(mem(s.store).sessions) == dom(s.receivedSessions)
+//@   ensures err == nil ==> forall id string :: id in s.receivedSessions ==> mem(s.store).sessions[id] == s.receivedSessions[id]
+
+// handleSSEData (standby): one pushed change message is applied to the store in
+// list order: add/update = put (last occurrence of an id wins), delete =
+// remove, heartbeat (and unknown types) = no change, full = the store becomes
+// the snapshot. `msg` is the function's local holding the decoded message (its
+// value at return; DecodeSyncMessage/json yields an arbitrary message).
+//@ pure func inMsg(m *SyncMessage, n int, id string) bool = exists j int :: 0 <= j && j < n && m.Sessions[j].SessionID == id
+//@ func (s *HASyncer) handleSSEData
+//@   requires s.store != nil && mem(s.store).sessions != nil
+//@   requires s.receivedSessions != nil && s.receivedSessions != mem(s.store).sessions
+//@   requires keyed(mem(s.store))
+//@   modifies s.receivedSessions, s.stats, mem(s.store).sessions
+//@   ensures keyed(mem(s.store))
+//@   ensures mem(s.store).sessions == old(mem(s.store).sessions)
+//@   ensures s.receivedSessions != nil && s.receivedSessions != mem(s.store).sessions
+//@   ensures err != nil ==> dom(mem(s.store).sessions) == old(dom(mem(s.store).sessions)) && vals(mem(s.store).sessions) == old(vals(mem(s.store).sessions))
+//@   ensures err == nil ==> msg != nil
+//@   ensures err == nil && msg.Type != SyncTypeAdd && msg.Type != SyncTypeUpdate && msg.Type != SyncTypeDelete && msg.Type != SyncTypeFull ==> dom(mem(s.store).sessions) == old(dom(mem(s.store).sessions)) && vals(mem(s.store).sessions) == old(vals(mem(s.store).sessions))
+//@   ensures err == nil && (msg.Type == SyncTypeAdd || msg.Type == SyncTypeUpdate) ==> forall id string :: id in mem(s.store).sessions <==> (old(id in mem(s.store).sessions) || inMsg(msg, len(msg.Sessions), id))
+//@   ensures err == nil && (msg.Type == SyncTypeAdd || msg.Type == SyncTypeUpdate) ==> forall id string :: !inMsg(msg, len(msg.Sessions), id) ==> mem(s.store).sessions[id] == old(mem(s.store).sessions[id])
+//@   ensures err == nil && (msg.Type == SyncTypeAdd || msg.Type == SyncTypeUpdate) ==> forall id string :: inMsg(msg, len(msg.Sessions), id) ==> mem(s.store).sessions[id] != nil && (exists j int :: 0 <= j && j < len(msg.Sessions) && msg.Sessions[j].SessionID == id && *mem(s.store).sessions[id] == msg.Sessions[j] && (forall k int :: j < k && k < len(msg.Sessions) ==> msg.Sessions[k].SessionID != id))
+//@   ensures err == nil && msg.Type == SyncTypeDelete ==> forall id string :: id in mem(s.store).sessions <==> (old(id in mem(s.store).sessions) && !inMsg(msg, len(msg.Sessions), id))
+//@   ensures err == nil && msg.Type == SyncTypeDelete ==> vals(mem(s.store).sessions) == old(vals(mem(s.store).sessions))
+//@   ensures err == nil && msg.Type == SyncTypeFull ==> forall id string :: id in mem(s.store).sessions <==> inMsg(msg, len(msg.Sessions), id)
+
+//@ loop HASyncer.handleSSEData#1
+//@   invariant keyed(mem(s.store))
+//@   invariant msg != nil && s.receivedSessions != nil && s.receivedSessions != mem(s.store).sessions && mem(s.store).sessions == old(mem(s.store).sessions) && s.store == old(s.store)
+//@   invariant forall id string :: id in mem(s.store).sessions <==> (old(id in mem(s.store).sessions) || inMsg(msg, i, id))
+//@   invariant forall id string :: !inMsg(msg, i, id) ==> mem(s.store).sessions[id] == old(mem(s.store).sessions[id])
+//@   invariant forall id string :: inMsg(msg, i, id) ==> mem(s.store).sessions[id] != nil && fresh(mem(s.store).sessions[id]) && allocated(mem(s.store).sessions[id])
+//@   invariant forall id string :: inMsg(msg, i, id) ==> (exists j int :: 0 <= j && j < i && msg.Sessions[j].SessionID == id && *mem(s.store).sessions[id] == msg.Sessions[j] && (forall k int :: j < k && k < i ==> msg.Sessions[k].SessionID != id))
+
+//@ loop HASyncer.handleSSEData#2
+//@   invariant keyed(mem(s.store))
+//@   invariant msg != nil && s.receivedSessions != nil && s.receivedSessions != mem(s.store).sessions && mem(s.store).sessions == old(mem(s.store).sessions) && s.store == old(s.store)
+//@   invariant forall id string :: id in mem(s.store).sessions <==> (old(id in mem(s.store).sessions) && !inMsg(msg, i, id))
+//@   invariant vals(mem(s.store).sessions) == old(vals(mem(s.store).sessions))
+
+// ---- active side ----
+
+// PushChange: every accepted or rejected (queue full) change consumes exactly one
+// sequence number; numbers strictly increase (no wrap below 2^64-1). The message
+// put on the channel carries that number (channel contents are not modelled).
+//@ func (s *HASyncer) PushChange
+//@   requires session != nil
+//@   modifies s.sequenceNum
+//@   ensures s.config.Role != RoleActive ==> err != nil && s.sequenceNum == old(s.sequenceNum)
+//@   ensures s.config.Role == RoleActive && old(s.sequenceNum) < 18446744073709551615 ==> s.sequenceNum == old(s.sequenceNum) + 1
+
+// handleGetSessions: serves the store's snapshot; does not change the store or the sequence number.
+//@ func (s *HASyncer) handleGetSessions
+//@   requires s.store != nil && r != nil
+//@   modifies s.stats
+//@   ensures dom(mem(s.store).sessions) == old(dom(mem(s.store).sessions)) && vals(mem(s.store).sessions) == old(vals(mem(s.store).sessions))
+
+// ---- failover.go / health_monitor.go: FailoverController (C14) ----
+//
+// State machine fields are owned by c.mu. The four statistics counters are
+// accessed atomically and are not owned. ASSUMPTIONS (functype contracts):
+// event handlers and the role-change callback do not touch the controller's
+// state (they configure the data plane / log / export metrics) and do not call
+// back into the controller.
+//@ type FailoverController
+//@   owns mu: state currentRole failoverTime failbackTime lastRoleChange failoverTimer failbackTimer onRoleChange handlers
+
+//@ functype FailoverEventHandler(event)
+//@   modifies nothing
+//@ functype RoleChangeCallback(newRole)
+//@   modifies nothing
+//@ functype HealthEventHandler(event)
+//@   modifies nothing
+
+// healthAt(t): the health monitor reported the partner healthy at time t.
+//@ ghost func healthAt(t mathint) bool
+//@ func (m *HealthMonitor) IsPartnerHealthy
+//@   trusted reads the monitor's state under its own lock
+//@   modifies nothing
+//@   ensures result == healthAt(now())
+
+//@ func (c *FailoverController) notifyHandlers
+//@   modifies nothing
+
+// handleHealthEvent: the transitions of the controller on partner health events;
+// the role never changes here.
+//@ func (c *FailoverController) handleHealthEvent
+//@   modifies c.state, c.failoverTime, c.failbackTime, c.failoverTimer, c.failbackTimer, c.failoversCanceled
+//@   ensures c.currentRole == locked(c.currentRole)
+//@   ensures event.Type == HealthEventPartnerDown && locked(c.currentRole) == RoleStandby && locked(c.state) == FailoverStateNormal ==> c.state == FailoverStatePending && c.failoverTime >= old(now()) + c.config.FailoverDelay
+//@   ensures event.Type == HealthEventPartnerDown && !(locked(c.currentRole) == RoleStandby && locked(c.state) == FailoverStateNormal) ==> c.state == locked(c.state)
+//@   ensures event.Type == HealthEventPartnerUp && locked(c.state) == FailoverStatePending ==> c.state == FailoverStateNormal && c.failoversCanceled == (old(c.failoversCanceled) + 1) % 18446744073709551616
+//@   ensures event.Type == HealthEventPartnerUp && locked(c.state) == FailoverStateComplete && c.config.FailbackEnabled ==> c.state == FailoverStateFailbackPending
+//@   ensures event.Type == HealthEventPartnerUp && locked(c.state) != FailoverStatePending && !(locked(c.state) == FailoverStateComplete && c.config.FailbackEnabled) ==> c.state == locked(c.state)
+//@   ensures event.Type != HealthEventPartnerUp && event.Type != HealthEventPartnerDown ==> c.state == locked(c.state)
+//@   ensures c.state != FailoverStateInProgress || locked(c.state) == FailoverStateInProgress
+
+// initiateFailover (operator path): marks the failover in progress and announces it.
+//@ func (c *FailoverController) initiateFailover
+//@   modifies c.state
+//@   ensures c.currentRole == locked(c.currentRole)
+//@   ensures err != nil ==> c.state == locked(c.state) && locked(c.currentRole) == RoleActive
+//@   ensures err == nil ==> c.state == FailoverStateInProgress && locked(c.currentRole) != RoleActive
+
+// ForceFailover (operator command). From the property: when the command returns, the
+// controller must not sit in the in-progress state with nothing scheduled to leave it.
+//@ func (c *FailoverController) ForceFailover
+//@   modifies c.state, c.currentRole, c.lastRoleChange, c.failoversInitiated, c.failoversCompleted
+//@   ensures err == nil ==> c.state != FailoverStateInProgress
+//@   ensures err != nil && c.failoversInitiated != old(c.failoversInitiated) ==> c.state != FailoverStateInProgress
+
+// executeFailover: the role changes only on the path where the callback returned nil (that
+// path alone increments failoversCompleted, by exactly one), and the in-progress state is
+// left on every path.
+//@ func (c *FailoverController) executeFailover
+//@   perexit
+//@   modifies c.state, c.currentRole, c.lastRoleChange, c.failoversInitiated, c.failoversCompleted
+//@   ensures c.state != FailoverStateInProgress
+//@   ensures c.failoversCompleted == old(c.failoversCompleted) || c.failoversCompleted == (old(c.failoversCompleted) + 1) % 18446744073709551616
+//@   ensures c.failoversCompleted != old(c.failoversCompleted) ==> c.currentRole == RoleActive && c.state == FailoverStateComplete
+//@   ensures c.failoversCompleted == old(c.failoversCompleted) ==> c.currentRole == lockedN(1, c.currentRole) || c.currentRole == lockedN(2, c.currentRole)
+//@   ensures c.failoversCompleted == old(c.failoversCompleted) ==> c.state == FailoverStateNormal || c.state == lockedN(1, c.state)
+//@   ensures c.failoversInitiated == old(c.failoversInitiated) || c.failoversInitiated == (old(c.failoversInitiated) + 1) % 18446744073709551616
+// per critical section (program order: acquisitions 1 = entry, 2 = callback-failure path, 3 =
+// success path; releases 1 = early return, 2 = end of the first section, 3 = failure path,
+// 4 = success path): the first section never writes the role and only moves pending/in-progress
+// to in-progress; the failure section leaves the role alone and resets the state; the role is
+// written only in the section that follows a callback returning nil
+//@   ensures unlockedN(1, c.currentRole) == lockedN(1, c.currentRole) && unlockedN(2, c.currentRole) == lockedN(1, c.currentRole)
+//@   ensures unlockedN(1, c.state) == lockedN(1, c.state)
+//@   ensures unlockedN(2, c.state) == FailoverStateInProgress
+//@   ensures unlockedN(3, c.currentRole) == lockedN(2, c.currentRole) && unlockedN(3, c.state) == FailoverStateNormal
+//@   ensures unlockedN(4, c.currentRole) == RoleActive && unlockedN(4, c.state) == FailoverStateComplete
+
+// executeFailback: the role returns to the original one only on the path where the partner
+// was reported healthy during the call and the callback returned nil.
+//@ func (c *FailoverController) executeFailback
+//@   perexit
+//@   requires c.healthMonitor != nil
+//@   modifies c.state, c.currentRole, c.lastRoleChange, c.failbacksCompleted
+//@   ensures c.state != FailoverStateInProgress || lockedN(1, c.state) == FailoverStateInProgress || lockedN(2, c.state) == FailoverStateInProgress
+//@   ensures c.failbacksCompleted != old(c.failbacksCompleted) ==> c.currentRole == c.originalRole && c.state == FailoverStateNormal
+//@   ensures c.failbacksCompleted != old(c.failbacksCompleted) ==> exists t mathint {healthAt(t)} :: old(now()) <= t && t <= now() && healthAt(t)
+//@   ensures c.failbacksCompleted == old(c.failbacksCompleted) ==> c.currentRole == lockedN(1, c.currentRole) || c.currentRole == lockedN(2, c.currentRole)
+// releases: 1 = not failback-pending, 2 = partner unhealthy, 3 = end of the first section,
+// 4 = callback-failure path, 5 = success path
+//@   ensures unlockedN(1, c.currentRole) == lockedN(1, c.currentRole) && unlockedN(2, c.currentRole) == lockedN(1, c.currentRole) && unlockedN(3, c.currentRole) == lockedN(1, c.currentRole)
+//@   ensures unlockedN(4, c.currentRole) == lockedN(2, c.currentRole) && unlockedN(4, c.state) == FailoverStateComplete
+//@   ensures unlockedN(5, c.currentRole) == c.originalRole && unlockedN(5, c.state) == FailoverStateNormal
+
+//@ func (c *FailoverController) initiateFailback
+//@   modifies nothing
+//@   ensures c.currentRole == locked(c.currentRole) && c.state == locked(c.state)
+
+//@ func (c *FailoverController) ForceFailback
+//@   modifies nothing
+
+//@ func (c *FailoverController) CurrentRole
+//@   modifies nothing
+//@   ensures result == locked(c.currentRole)
